@@ -276,13 +276,17 @@ def notify_protocol(chk: Check, rule: str = "R05.2") -> None:
     s = next(iter(S))
     # parent fetched through parent_getter(instance); falsy parent excuses
     falsy: Set[int] = set()
+    parent_names = {t.id for a in walk_no_nested(f.node) if isinstance(a, ast.Assign)
+                    and isinstance(a.value, ast.Call) and attr_path(a.value.func) == (f.self_name, "parent_getter")
+                    for t in a.targets if isinstance(t, ast.Name)}
     for n, i in cfg.info.items():
-        if i.kind == "test" and isinstance(i.ast, ast.Name):
+        if i.kind == "test" and isinstance(i.ast, ast.Name) and i.ast.id in parent_names:
             for b in cfg.g.successors(n):
                 if cfg.info[b].kind == "branch" and cfg.info[b].value is False:
                     falsy.add(b)
         if i.kind == "test" and isinstance(i.ast, ast.Compare) and len(i.ast.ops) == 1 and \
-                isinstance(i.ast.ops[0], (ast.Is, ast.IsNot)) and isinstance(i.ast.left, ast.Name):
+                isinstance(i.ast.ops[0], (ast.Is, ast.IsNot)) and isinstance(i.ast.left, ast.Name) \
+                and i.ast.left.id in parent_names:
             for b in cfg.g.successors(n):
                 if cfg.info[b].kind == "branch" and cfg.info[b].value == isinstance(i.ast.ops[0], ast.Is):
                     falsy.add(b)
